@@ -69,8 +69,9 @@ def pack(descs: list[dict], prefix: str = "T") -> tuple[dict, list[dict]]:
     cases = []
     for i, d in enumerate(descs):
         cls = f"{prefix}{i}"
-        schemas[cls] = {"type": "object", "properties": {"p": schema_of(d)}, **({"required": ["p"]} if d["req"] else {})}
-        cases.append({"cls": cls, "prop": "p", "wires": [[w, w != "absent", WIRE.get(w)] for w in WIRESEQ], "construct_empty": True})
+        # every other holder forbids additional properties: the generated decoder takes another path (nothing is left over to keep)
+        schemas[cls] = {"type": "object", "properties": {"p": schema_of(d)}, **({"required": ["p"]} if d["req"] else {}), **({"additionalProperties": False} if i % 2 else {})}
+        cases.append({"cls": cls, "prop": "p", "closed": bool(i % 2), "wires": [[w, w != "absent", WIRE.get(w)] for w in WIRESEQ], "construct_empty": True})
     return gen.mkdoc(schemas=schemas), cases
 
 
